@@ -40,6 +40,7 @@ func scratchBase() string {
 }
 
 type persistRunner struct {
+	keyPen
 	violBuf
 	tagBuf
 	kind    string
@@ -180,7 +181,7 @@ func (r *persistRunner) Exec(line string) string {
 	t := strings.Fields(line)
 	switch t[0] {
 	case "put":
-		k := unhx(t[1])
+		k := r.k(unhx(t[1]))
 		var v []byte
 		switch t[2] {
 		case "nil":
@@ -201,7 +202,7 @@ func (r *persistRunner) Exec(line string) string {
 		r.tag("put")
 		return r.dump("after put " + hx(k))
 	case "rm":
-		k := unhx(t[1])
+		k := r.k(unhx(t[1]))
 		if err := r.p.Remove(k); err != nil {
 			return "err:" + err.Error()
 		}
@@ -212,7 +213,7 @@ func (r *persistRunner) Exec(line string) string {
 		// a Put issued WHILE the timer flush of leveldb.DB sits between its LevelDB write and the batch reset: the put must
 		// neither be lost nor resurrect anything — the outcome is that of `tick` followed by `put` (a flush does not change
 		// the logical map). On the unchanged code the Put blocks on the batch mutex until the flush has finished.
-		k := unhx(t[1])
+		k := r.k(unhx(t[1]))
 		var v []byte
 		if t[2] != "-" && t[2] != "nil" {
 			v = unhx(t[2])
